@@ -398,7 +398,7 @@ impl<T: ZooVal> ZooVal for VecDeque<T> {
 }
 impl<T: ZooVal + Ord> ZooVal for BinaryHeap<T> {
     fn ty_sx() -> String {
-        format!("(set {})", T::ty_sx())
+        format!("(bag {})", T::ty_sx())
     }
     fn defs(d: &mut Defs) {
         T::defs(d)
